@@ -84,6 +84,7 @@ pub fn op_name(op: &Op) -> &'static str {
         Op::ModelEval => "ModelEval",
         Op::ModelDeriv(_) => "ModelDeriv",
         Op::ConcurrentQueries(_) => "ConcurrentQueries",
+        Op::ResultView => "ResultView",
     }
 }
 
